@@ -365,7 +365,7 @@ def run(ctx):
     allpf = [x for x in range(16) if (x & 12) != 12]      # skip_default together with force_default is contradictory
     ndoc = 400 if T else 90
     for k in range(ndoc):
-        root = rng.choice(['Root'] * 6 + ['Leaf', 'Other', 'Sub', 'Rec', 'Pt', 'Fix', 'Fix', 'Nums', 'Nums', 'Node', 'DepFirst', 'DepMid', 'DepLast', 'DepOnly'])
+        root = rng.choice(['Root'] * 6 + ['Leaf', 'Other', 'Sub', 'Rec', 'Pt', 'Fix', 'Fix', 'Nums', 'Nums', 'Node', 'DepFirst', 'DepMid', 'DepLast', 'DepOnly', 'Tiny', 'S1', 'S3'])
         utf8 = (k % 3 != 0)
         v, text = make(root, utf8, rng.choice([1, 2, 3]))
         pfs = allpf if k < (12 if T else 4) else [0, 1, 2, 4, 8] + rng.sample(allpf, 2)
@@ -447,6 +447,19 @@ def run(ctx):
         v = g.table(root_, 0, p_present=1.0)
         st = U.Style(rng, strict=True); st.union_order = ['type_first', 'value_first', 'split'][(k // 3) % 3]; st.omit_struct_fields = False
         cases.append(('deprecated-union', root_, v, U.render_root(root_, v, st), rng.choice([0, 1, 2]), 0, True))
+    # struct roots of 1, 2, 3 bytes (at the very end of their buffer) next to 4 and 8 byte ones: printed as buffer root and as nested root
+    for root_, body in (('S1', b'{"a":7}'), ('S1', b'{"a":255}'), ('S1', b'{}'), ('S2', b'{"a":1,"b":2}'), ('S2s', b'{"a":65535}'), ('S3', b'{"a":1,"b":2,"c":3}'), ('Pt', b'{"x":-1,"y":2}'),
+                        ('Point', None)):
+        if body is None: continue
+        for pf in (0, 1, 8):
+            for indent in (0, 2):
+                cases.append(('tiny-struct-root', root_, None, body, pf, indent, True))
+    for k in range(12):
+        g = U.Gen(rng, max_depth=2, text='utf8')
+        v = g.table('Tiny', 0, p_present=1.0 if k < 6 else 0.6)
+        st = U.Style(rng, strict=True); st.omit_struct_fields = False
+        for pf in (0, 2):
+            cases.append(('tiny-nested-struct', 'Tiny', v, U.render_root('Tiny', v, st), pf, rng.choice([0, 2]), True))
     # a bit_flags enum that defines every bit of its base type: value 0 (no flag), all bits, in a field and in a vector
     for body, v in ((b'{"full":0}', {'full': 0}), (b'{"full":255}', {'full': 255}), (b'{"vfull":[0,1,255,0]}', {'vfull': [0, 1, 255, 0]}), (b'{"vfull":[0]}', {'vfull': [0]}),
                     (b'{"full":128,"vfull":[3,0,0]}', {'full': 128, 'vfull': [3, 0, 0]}), (b'{}', {})):
@@ -500,6 +513,9 @@ def run(ctx):
         if prc < 0 and klass.startswith('deep-chain'):
             ctx.violation('print-error:verified-depth', 'the parser built and the verifier accepted a buffer nested through %s, but the printer fails with %d (deep recursion is error 2): the printer must '
                           'print every buffer the verifier accepts' % (klass.split(':', 1)[1], prc), replay); continue
+        if prc < 0 and klass.startswith('tiny-'):
+            ctx.violation('print-error:' + klass, 'the printer refuses (%d; bad input is error 1) a verified buffer whose %s is a struct of 1..3 bytes placed at the very end of its buffer (root %s)' % (
+                prc, 'root' if klass == 'tiny-struct-root' else 'nested_flatbuffer root', root), replay); continue
         if prc < 0:
             ctx.violation('print-error', 'printer failed with %d on a verified buffer (flags %d, indent %d)' % (prc, pf, indent), replay); continue
         if (p1 != 0 or deq != 1) and full_zero(root, v, pf, t1):
